@@ -93,6 +93,25 @@ theorem slashed_no_space (segs : List Str) (h : ∀ s ∈ segs, segOk s = true) 
   · rw [hc]; decide
   · exact (segChar_spec ((segOk_spec (h s hs)).2.1 c hc)).2.2.2.2
 
+/-- non-empty slash-free segments, each preceded by one slash: no `//` -/
+theorem slashed_noDbl (segs : List Str) (hne : ∀ s ∈ segs, s ≠ []) (hsl : ∀ s ∈ segs, '/' ∉ s) :
+    hasInfix (slashed segs) dblSlash = false := by
+  induction segs with
+  | nil => simp [slashed, hasInfix, dblSlash, List.isPrefixOf]
+  | cons s ss ih =>
+    have ih' := ih (fun x hx => hne x (by simp [hx])) (fun x hx => hsl x (by simp [hx]))
+    have hs := hsl s (by simp)
+    have hs0 := hne s (by simp)
+    unfold dblSlash at ih' ⊢
+    simp only [slashed]
+    rw [hasInfix_cons_eq, hasInfix_append_not_mem s _ '/' _ hs, ih']
+    cases s with
+    | nil => exact absurd rfl hs0
+    | cons c cs =>
+      have hc : c ≠ '/' := fun e => hs (by simp [e])
+      simp [List.isPrefixOf]
+      exact fun e => hc e.symm
+
 /-! ## `pathsplit` -/
 
 theorem dropWhile_of_all_false {α : Type} (f : α → Bool) (l : List α) (h : ∀ x ∈ l, f x = false) :
